@@ -106,6 +106,7 @@ UNIT = dict(
     'scq.finalize.sets': dict(deciding=True, text='finalize sets the finalized bit and nothing else; set_threshold(3cap-1) keeps Inv_S'),
     'scq.enqueue.skips_overtaken': dict(deciding=True, text='if a dequeuer has already drawn head ticket T = tail and passed slot(T) (lifted it to cycle(T), or marked it unsafe), enqueue does not publish in slot(T) but at ticket T+1, where head is'),
     'scq.dequeue.retries_bounded': dict(deciding=True, text='[SOLO] for PopRetries = 0 and 2: dequeue re-reads the slot of its head ticket at most PopRetries times while the owner of that ticket has not published, then closes the slot and moves on; with every drawn ticket costing one unit of threshold the call returns within the unwinding bound - it never waits for another thread'),
+    'scq.sync.orders': dict(deciding=True, text='sync precondition: enqueue and dequeue load ring entries with acquire-or-stronger order; the entry CAS of enqueue, and the entry fetch_or and entry CAS of dequeue are release-or-stronger (an index handed over through a ring entry carries the element it names)'),
     'scq.catchup.restores': dict(deciding=True, text='catchup(tail, head) with tail behind head moves the tail position to the head position and writes nothing else'),
   },
   replays={k: dict(src='replay_scq.cpp') for k in ('scq.enqueue.appends', 'scq.dequeue.takes_first', 'scq.dequeue.empty_iff', 'scq.inv.preserved', 'scq.catchup.keeps_finalized', 'scq.enqueue.finalized_fails', 'scq.dequeue.blocks_ticket', 'scq.enqueue.skips_overtaken')},
